@@ -569,6 +569,12 @@ func (x *Exec) runBody(u *Unit, st *State, sig *types.Signature, body *ast.Block
 			x.checkPost(u, e, entrySt, mk, res, body)
 		})
 	}
+	if pc != nil && pc.LoopCount > 0 {
+		if n := countLoops(body); n != pc.LoopCount {
+			x.staleOrdinals = true
+			x.assumed[fmt.Sprintf("%s: the body has %d loops, the contract was written for %d: loop ordinals are not trusted, invariants are inferred from the written clauses", x.unit, n, pc.LoopCount)] = true
+		}
+	}
 	x.retOrd = map[*ast.ReturnStmt]int{}
 	ast.Inspect(body, func(n ast.Node) bool {
 		switch n := n.(type) {
